@@ -21,9 +21,23 @@ import (
 type markerSession struct {
 	calls int64
 	delay int // Gosched rounds before returning (varies completion order)
+	pipes sync.Map // fid -> chan []byte: a Read on a pipe fid returns only what a Write on the same fid hands over
 }
 
 const slowFid = 1 << 30 // calls on fids ≥ slowFid are answered late (their callers give up first)
+
+// Fids in [pipeFid, slowFid) behave like a rendezvous file (a pipe, a blocking device file):
+// a Read returns only once a Write on the same fid arrives, and the Write returns only once a
+// Read has taken its data.  The Session interface allows this (calls may block until their
+// context ends), and it works when the session is called directly; so it must work when the
+// session is served, which it does only if the dispatcher never makes one request on a fid
+// wait for another one on the same fid.
+const pipeFid = 1 << 29
+
+func (m *markerSession) pipe(fid p9p.Fid) chan []byte {
+	ch, _ := m.pipes.LoadOrStore(fid, make(chan []byte))
+	return ch.(chan []byte)
+}
 
 func (m *markerSession) tick(fid p9p.Fid) {
 	atomic.AddInt64(&m.calls, 1)
@@ -60,6 +74,15 @@ func (m *markerSession) Walk(ctx context.Context, fid, newfid p9p.Fid, names ...
 }
 func (m *markerSession) Read(ctx context.Context, fid p9p.Fid, p []byte, off int64) (int, error) {
 	m.tick(fid)
+	if fid >= pipeFid && fid < slowFid {
+		select {
+		case d := <-m.pipe(fid):
+			atomic.AddInt64(&m.calls, 1)
+			return copy(p, d), nil
+		case <-ctx.Done():
+			return 0, ctx.Err()
+		}
+	}
 	if err := mErr(fid); err != nil {
 		return 0, err
 	}
@@ -76,6 +99,15 @@ func (m *markerSession) Write(ctx context.Context, fid p9p.Fid, p []byte, off in
 	for i := range p {
 		if p[i] != byte(int(fid)*3+i) {
 			return 0, p9p.MessageRerror{Ename: "write data was not the caller's"}
+		}
+	}
+	if fid >= pipeFid && fid < slowFid {
+		select {
+		case m.pipe(fid) <- append([]byte(nil), p...):
+			atomic.AddInt64(&m.calls, 1)
+			return len(p), nil
+		case <-ctx.Done():
+			return 0, ctx.Err()
 		}
 	}
 	return len(p), nil
@@ -109,6 +141,7 @@ type ConcCase struct {
 	Delay      int
 	Probe      bool // the known-finding probe: many callers over a rendezvous connection
 	Quitter    bool // an extra caller whose calls are abandoned (context timeout) before the session answers
+	Pipes      int  // pairs of callers where one reads a fid and the other writes it; the read returns only what the write hands over
 }
 
 func GenConc(t *rapid.T) ConcCase {
@@ -120,6 +153,16 @@ func GenConc(t *rapid.T) ConcCase {
 		c.Callers = rapid.IntRange(2, 32).Draw(t, "callers")
 	}
 	c.Quitter = rapid.Bool().Draw(t, "quitter")
+	c.Pipes = rapid.IntRange(0, 3).Draw(t, "pipes")
+	if c.Rendezvous {
+		// each pair keeps two more requests in flight (D14 again)
+		if c.Pipes > 1 {
+			c.Pipes = 1
+		}
+		if c.Pipes == 1 {
+			c.Callers = 2
+		}
+	}
 	if c.Rendezvous {
 		// every abandoned call leaves a request in flight at the server, so the abandoning
 		// caller alone crosses the D14 threshold (>= 5 requests in flight over a zero-buffer
@@ -270,6 +313,56 @@ func RunConc(c ConcCase) harn.Result {
 			}
 		}(k)
 	}
+	// pairs of callers meeting on a pipe fid: the reader's call is in flight (blocked in the
+	// session) when the writer's request arrives, or the other way round
+	for j := 0; j < c.Pipes; j++ {
+		fid := p9p.Fid(pipeFid + 7*j + 1) // never ≡ 3 mod 7: no marker error
+		if fid%7 == 3 {
+			fid++
+		}
+		n := 1 + int(fid)%40
+		rounds := 1 + c.Each/3
+		note := func(v string) {
+			mu.Lock()
+			wrong = append(wrong, v)
+			mu.Unlock()
+		}
+		wg.Add(2)
+		go func() { // reader
+			defer wg.Done()
+			for i := 0; i < rounds; i++ {
+				buf := make([]byte, n)
+				got, err := st.Client.Read(ctx, fid, buf, 0)
+				if err != nil || got != n {
+					note(fmt.Sprintf("pipe fid %d: read %d got n=%d err=%v", fid, i, got, err))
+					return
+				}
+				for x := range buf {
+					if buf[x] != byte(int(fid)*3+x) {
+						note(fmt.Sprintf("pipe fid %d: read %d returned bytes the writer did not write", fid, i))
+						return
+					}
+				}
+			}
+		}()
+		go func(j int) { // writer; starts a little later in every other pair, so the read is in flight first
+			defer wg.Done()
+			if j%2 == 0 {
+				time.Sleep(200 * time.Microsecond)
+			}
+			for i := 0; i < rounds; i++ {
+				p := make([]byte, n)
+				for x := range p {
+					p[x] = byte(int(fid)*3 + x)
+				}
+				got, err := st.Client.Write(ctx, fid, p, 0)
+				if err != nil || got != n {
+					note(fmt.Sprintf("pipe fid %d: write %d got n=%d err=%v", fid, i, got, err))
+					return
+				}
+			}
+		}(j)
+	}
 	// one more caller keeps abandoning calls (its context ends before the slow session
 	// answers); the late replies must not disturb anybody else
 	if c.Quitter {
@@ -338,6 +431,9 @@ wait:
 	}
 	if c.Quitter {
 		res.Classes = append(res.Classes, "conc_with_abandoned_calls")
+	}
+	if c.Pipes > 0 {
+		res.Classes = append(res.Classes, "conc_read_waits_for_write_on_same_fid")
 	}
 	if c.Rendezvous {
 		res.Classes = append(res.Classes, "conc_rendezvous")
